@@ -31,6 +31,7 @@ COMPONENTS = {
              'openhtf.core.test_state.TestState (whole-run mode)', 'Test.execute / TestExecutor / PhaseExecutor (whole-run mode)'],
     'simulated': ['locks', 'thread scheduling', 'clock/sleep', 'station server (replaced by watcher threads using asdict_with_event)'],
 }
+WARMUP = 12
 QUICK = {'budget_s': 40}
 THOROUGH = {'budget_s': 480}
 EXPECTED_PROBES = ['notify_inside_snapshot_window', 'two_watchers_one_notify', 'watcher_woken']
